@@ -538,7 +538,7 @@ class EvalFunc:
                                 ast_ctx.log_exception(exc)
                             return None
 
-                        task = Function.create_task(do_service_call(func, ast_ctx, func_args))
+                        task = Function.create_task(do_service_call(func, ast_ctx, func_args), ast_ctx=ast_ctx)
                         await task
                         return task.result()
 
